@@ -141,3 +141,30 @@ theorem toOvm_verifyWith (vault : List Pem) (now : Int) (t : Presented α) (keys
   · simp [hf, hw]
 
 end Sge.Ticket
+
+namespace Sge.Core
+open Sge
+
+theorem houseDepositO_bad_ticket (s : State) (c : Nat) (tk : Tk) (m : Nat) (a : Int) (pd : Nat)
+    (h : tk.ok = false) : houseDepositO s c tk m a pd = none := by
+  unfold houseDepositO
+  simp only [chk, h, bind, pure]
+  split <;> (try rfl)
+  split <;> rfl
+
+theorem houseWithdrawO_bad_ticket (s : State) (c : Nat) (tk : Tk) (m i md : Nat) (a : Int) (pd : Nat)
+    (h : tk.ok = false) : houseWithdrawO s c tk m i md a pd = none := by
+  unfold houseWithdrawO
+  simp only [chk, h, bind, pure]
+  split <;> (try rfl)
+  split <;> (try rfl)
+  split <;> rfl
+
+theorem wagerO_bad_ticket (s : State) (c : Nat) (tk : Tk) (u : Nat) (a : Int) (pl : WagerPayload)
+    (h : tk.ok = false) : wagerO s c tk u a pl = none := by
+  unfold wagerO
+  simp only [chk, h, bind, pure]
+  split <;> (try rfl)
+  split <;> rfl
+
+end Sge.Core
